@@ -173,11 +173,38 @@ func (a *Affiliation) computeTriggersForCastingSites(pass *analysishelper.Enhanc
 					// the callee is a function value (e.g., `f := foo; f(&S{})`), a method expression, whose
 					// first argument is the receiver (e.g., `T.foo(t, &S{})`), or an instantiated generic
 					// function (e.g., `id[I](&S{})`, whose parameter is of type `I` rather than `T`).
-					var fsig *types.Signature
+					var fsigs []*types.Signature
 					if tv, ok := pass.TypesInfo.Types[node.Fun]; ok && tv.IsValue() && tv.Type != nil {
-						fsig, _ = tv.Type.Underlying().(*types.Signature)
+						if fsig, ok := tv.Type.Underlying().(*types.Signature); ok {
+							fsigs = append(fsigs, fsig)
+						}
 					}
-					if fsig != nil {
+					// The call of a generic function also converts an argument passed for a type parameter to
+					// the constraint of the type parameter, e.g., `func F[T I](x T)`, `F(&S{})`: the methods of
+					// `I` are called on `x` in the body of `F`. The instantiated signature above (`func(*S)`)
+					// does not show this, so we match the arguments against the generic signature as well.
+					callee := ast.Unparen(node.Fun)
+					switch fun := callee.(type) {
+					case *ast.IndexExpr:
+						callee = fun.X
+					case *ast.IndexListExpr:
+						callee = fun.X
+					}
+					var calleeIdent *ast.Ident
+					switch fun := ast.Unparen(callee).(type) {
+					case *ast.Ident:
+						calleeIdent = fun
+					case *ast.SelectorExpr:
+						calleeIdent = fun.Sel
+					}
+					if calleeIdent != nil {
+						if fdecl, ok := pass.TypesInfo.Uses[calleeIdent].(*types.Func); ok {
+							if generic, ok := fdecl.Origin().Type().(*types.Signature); ok && generic.TypeParams().Len() > 0 {
+								fsigs = append(fsigs, generic)
+							}
+						}
+					}
+					for _, fsig := range fsigs {
 						numParams := fsig.Params().Len()
 						for i := 0; i < len(node.Args); i++ {
 							var lhsType types.Type // receiver param of method declaration
